@@ -803,7 +803,32 @@ fn c05_gen(seed: u64, run: u64, thorough: bool) -> Plan {
     plan
 }
 fn c05_gen_b(seed: u64, run: u64, thorough: bool) -> Plan {
-    b_transport("C05", "b_ideal", seed, run, thorough, true, true, false)
+    let mut plan = b_transport("C05", "b_ideal", seed, run, thorough, true, true, false);
+    // a third of the runs: one more burst (a multi-fragment packet of a non-reliable mode last),
+    // then a graceful disconnect() at once - on this network everything submitted before the
+    // call still arrives before the peer sees Disconnect
+    let mut r = Rng::keyed(&[seed, run, 0xb05]);
+    if r.chance(0.33) {
+        let clients: Vec<(usize, u64)> = plan.endpoints.iter().enumerate().filter_map(|(i, e)| match &e.kind {
+            EndpointKind::Client { cfg, .. } => Some((i, cfg.max_packet_size)),
+            _ => None,
+        }).collect();
+        let s_alloc = match &plan.endpoints[0].kind { EndpointKind::Server { cfg, .. } => cfg.max_receive_alloc, _ => 0 };
+        let heal = plan.timeline.iter().find(|t| matches!(&t.op, Op::Mark { name } if name == "heal")).map(|t| t.t_us).unwrap_or(5_000_000);
+        let mut tag = 950_000u32;
+        for (c, c_pkt) in clients {
+            let t = heal + r.range(2_000_000, 6_000_000);
+            for k in 0..r.range(1, 4) {
+                let len = (r.range(1, 7) * FRAG + r.range(1, FRAG - 1)).min(c_pkt).min(s_alloc).max(12) as u32;
+                let mode = *r.pick(&[MODE_UNRELIABLE, MODE_PERSISTENT, MODE_RELIABLE]);
+                plan.push(t + k, 0x4000_0000 + tag, Op::Send { ep: c, to: None, ch: r.below(4) as u8, mode, len, tag });
+                tag += 1;
+            }
+            plan.push(t + 10, 0x6000_0000, Op::Disconnect { ep: c, to: None });
+        }
+        plan.sort();
+    }
+    plan
 }
 fn c05_oracles(plan: &Plan) -> Vec<Box<dyn Oracle>> {
     with_states(vec![Box::new(TransportOracle::new("C05", TransportClauses { ideal: true, ..Default::default() }, plan))])
@@ -1934,10 +1959,19 @@ fn c20_oracles(plan: &Plan) -> Vec<Box<dyn Oracle>> {
     with_states(vec![Box::new(TransportOracle::new("C20", TransportClauses { buffer_model: true, ..Default::default() }, plan))])
 }
 
+/// Lifecycle traffic: sends, graceful and immediate disconnects from both sides, drops, restarts.
+/// The public query is compared with the model while the connection is established - also
+/// after disconnect() has been asked for and the queue is still being flushed.
+fn c20_gen_lifecycle(seed: u64, run: u64, thorough: bool) -> Plan {
+    world_b_lifecycle("C20", "b_buffer_lifecycle", seed, run, thorough)
+}
+
 pub fn c20() -> CheckDef {
     CheckDef {
         property: "C20",
-        families: vec![Family { name: "b_buffer", world: "B", weight: 1, gen: c20_gen_b, oracles: c20_oracles, adversary: None, keep_workload: false, custom: None,
+        families: vec![Family { name: "b_buffer_lifecycle", world: "B", weight: 1, gen: c20_gen_lifecycle, oracles: c20_oracles, adversary: None, keep_workload: false, custom: None,
+            what: "the same model through connection lifecycles (sends interleaved with disconnect() / disconnect_now() from either side, Server::drop, client restarts, faults on handshake and disconnect frames): the public send_buffer_size() of Client and RemoteClient is compared with the model as long as the connection is established, including while a graceful disconnect is being flushed" },
+            Family { name: "b_buffer", world: "B", weight: 1, gen: c20_gen_b, oracles: c20_oracles, adversary: None, keep_workload: false, custom: None,
             what: "the same model against the send_buffer_size() of real Clients and RemoteClients (packets queued before Connect included)" },
         Family { name: "a_buffer", world: "A", weight: 3, gen: c20_gen, oracles: c20_oracles, adversary: None, keep_workload: false, custom: None,
             what: "mixed traffic with many TimeSensitive packets, window and allocation stalls, ack loss; after every call send_buffer_size() must equal accepted - acknowledged - discarded" }],
